@@ -479,7 +479,11 @@ def linspace(start, stop, num=50):
     return ndarray(out, None)
 
 
-def arange(start, stop, step):
+def arange(start, stop=None, step=1):
+    if stop is None:
+        start, stop = 0, start
+    if isinstance(start, int) and isinstance(stop, int) and isinstance(step, int):
+        return ndarray(list(builtins_range(start, stop, step)), None)
     n = int(math.ceil((stop - start) / step))
     return ndarray([start + i * step for i in builtins_range(max(n, 0))], None)
 
